@@ -38,6 +38,17 @@ SEEDS_QUICK = ["0", "1", "2", "3", "11"]
 SEEDS_THOROUGH = [str(i) for i in range(0, 16)]
 
 
+# variants of the caption-set family: None | "short-codes+styles" (two-letter codes that also occur inside the style
+# text the set carries: en/center, de/text-decoration, it/italic) | "adjusted" (the set went through
+# adjust_caption_timing(offset=0, rate_skew=1) - an identity on the times - before it is written)
+VARIANT = None
+SHORT = ["en", "de", "it", "es"]
+
+
+def lang_codes():
+    return SHORT if VARIANT == "short-codes+styles" else LANGS
+
+
 def bounds(tier):
     return {"lattice_points": {2: 6, 3: 4 if tier == "quick" else 5, 4: 3 if tier == "quick" else 4}, "hash_seeds": SEEDS_QUICK if tier == "quick" else SEEDS_THOROUGH, "default_lang_env": [None, "xx"]}
 
@@ -60,16 +71,22 @@ def build(assign):
 
     caps = {}
     for li, cues in enumerate(assign):
-        lang = LANGS[li]
+        lang = lang_codes()[li]
         cl = CaptionList()
         for ci, (s, e) in enumerate(cues):
             cl.append(Caption(s * 1000, e * 1000, [CaptionNode.create_text(f"{lang[:2]}{ci}")]))
         caps[lang] = cl
-    return CaptionSet(caps)
+    cs = CaptionSet(caps)
+    if VARIANT == "short-codes+styles":
+        cs.set_styles({"narrator": {"text-align": "center", "text-decoration": "underline", "font-style": "italic", "color": "red"}})
+    if VARIANT == "adjusted":
+        cs.adjust_caption_timing(offset=0, rate_skew=1)
+    return cs
 
 
 def model(assign):
-    return {LANGS[li]: [(s, e, f"{LANGS[li][:2]}{ci}") for ci, (s, e) in enumerate(cues)] for li, cues in enumerate(assign)}
+    L = lang_codes()
+    return {L[li]: [(s, e, f"{L[li][:2]}{ci}") for ci, (s, e) in enumerate(cues)] for li, cues in enumerate(assign)}
 
 
 def real_lists(cs):
@@ -291,12 +308,20 @@ def shards(tier, seed):
                 sh.append({"k": "sets", "nl": nl, "lat": k, "part": p, "nparts": parts, "stride": 1 if full else 5, "_env": env})
         sh.append({"k": "docs", "_env": env})
         sh.append({"k": "docs", "_env": dict(env, PYCAPTION_DEFAULT_LANG="xx")})
+        if full:
+            for variant in ("short-codes+styles", "adjusted"):
+                for nl in (2, 3, 4):
+                    for p in range(2):
+                        sh.append({"k": "sets", "nl": nl, "lat": b["lattice_points"][nl], "part": p, "nparts": 2, "stride": 7 if tier == "quick" else 2, "variant": variant, "_env": env})
     sh.append({"k": "single", "_env": {"PYTHONHASHSEED": seeds[0]}})
     return sh
 
 
 def run_shard(d):
     acc = Acc()
+    global VARIANT
+    VARIANT = d.get("variant")
+    vx = f"/{VARIANT}" if VARIANT else ""
     if d["k"] == "sets":
         import pycaption
 
@@ -312,26 +337,26 @@ def run_shard(d):
                     b = cls().write(build(assign))
                 except Exception as e:  # noqa
                     a, b = "raises", "raises:" + type(e).__name__
-                acc.case(("reuse", name, assign), True, None, None)
+                acc.case(("reuse", name, assign, VARIANT), True, None, None)
                 if a != b:
-                    acc.violation(f"C14/{name}-write/reused-writer-output-differs/langs{d['nl']}", {"k": "reuse-" + name, "assign": assign, "prev": prev_assign, "_env": d["_env"]}, {"reused": a[-500:], "fresh": b[-500:]})
+                    acc.violation(f"C14/{name}-write/reused-writer-output-differs/langs{d['nl']}{vx}", {"k": "reuse-" + name, "assign": assign, "prev": prev_assign, "variant": VARIANT, "_env": d["_env"]}, {"reused": a[-500:], "fresh": b[-500:]})
                     shared[name] = cls()
             prev_assign = assign
             for fn, name in ((eval_sami, "sami"), (eval_dfxp, "dfxp")):
                 v, out = fn(assign)
-                acc.case((name, assign), True, out, {"route": name, "cues_ms_per_language": assign, "hashseed": os.environ.get("PYTHONHASHSEED")})
+                acc.case((name, assign, VARIANT), True, out, {"route": name, "cues_ms_per_language": assign, "variant": VARIANT, "hashseed": os.environ.get("PYTHONHASHSEED")})
                 for kind, det in v:
-                    acc.violation(f"C14/{kind}/langs{d['nl']}", {"k": name, "assign": assign, "_env": d["_env"]}, det)
+                    acc.violation(f"C14/{kind}/langs{d['nl']}{vx}", {"k": name, "assign": assign, "variant": VARIANT, "_env": d["_env"]}, det)
             if (i // d["nparts"]) % 7 == 0:
                 for force in ("existing", "missing"):
                     v, out = eval_dfxp(assign, force)
-                    acc.case(("dfxp-force", force, assign), True, out, None)
+                    acc.case(("dfxp-force", force, assign, VARIANT), True, out, None)
                     for kind, det in v:
-                        acc.violation(f"C14/{kind}/langs{d['nl']}", {"k": "dfxp", "force": force, "assign": assign, "_env": d["_env"]}, det)
+                        acc.violation(f"C14/{kind}/langs{d['nl']}{vx}", {"k": "dfxp", "force": force, "assign": assign, "variant": VARIANT, "_env": d["_env"]}, det)
                 v, out = eval_vtt_lang(assign)
-                acc.case(("vtt-lang", assign), True, out, None)
+                acc.case(("vtt-lang", assign, VARIANT), True, out, None)
                 for kind, det in v:
-                    acc.violation(f"C14/{kind}/langs{d['nl']}", {"k": "vtt", "assign": assign, "_env": d["_env"]}, det)
+                    acc.violation(f"C14/{kind}/langs{d['nl']}{vx}", {"k": "vtt", "assign": assign, "variant": VARIANT, "_env": d["_env"]}, det)
     elif d["k"] == "docs":
         variants = []
         for tt_lang in (None, "en", "pt-BR"):
@@ -382,6 +407,9 @@ def replay(case):
         except Exception:  # noqa
             return [{"sig": "_replay-error", "detail": (r.stdout + r.stderr)[-500:]}]
     k = case["k"]
+    global VARIANT
+    VARIANT = case.get("variant")
+    vx = f"/{VARIANT}" if VARIANT else ""
     if k.startswith("reuse-"):
         import pycaption
 
@@ -391,7 +419,7 @@ def replay(case):
             w.write(build(_t(case["prev"])))
         assign = _t(case["assign"])
         a, b = w.write(build(assign)), cls().write(build(assign))
-        return [{"sig": f"C14/{k[6:]}-write/reused-writer-output-differs/langs{len(assign)}", "detail": None}] if a != b else []
+        return [{"sig": f"C14/{k[6:]}-write/reused-writer-output-differs/langs{len(assign)}{vx}", "detail": None}] if a != b else []
     if k == "doc":
         v, _ = eval_docs(_t(case["var"]))
         return [{"sig": f"C14/{kind}", "detail": det} for kind, det in v]
@@ -403,4 +431,4 @@ def replay(case):
         v, _ = eval_dfxp(assign, case.get("force"))
     else:
         v, _ = eval_vtt_lang(assign)
-    return [{"sig": f"C14/{kind}/langs{nl}", "detail": det} for kind, det in v]
+    return [{"sig": f"C14/{kind}/langs{nl}{vx}", "detail": det} for kind, det in v]
